@@ -15,6 +15,7 @@ import (
 	"sort"
 	"strings"
 	"sync"
+	"sync/atomic"
 	"time"
 
 	tss "github.com/IBM/TSS/types"
@@ -76,6 +77,55 @@ func classificationOracle(w *wiring, p *common.Part, label string) {
 				rounds[k][r] = e.Data
 			}
 		}
+	}
+}
+
+// concurrentClassification: the orchestrator calls a session's classifier from the transport's goroutines, i.e. one adapter instance
+// classifies the traffic of all peers at once. The classification of every recorded message, computed by several goroutines at
+// the same time on ONE instance, must equal the sequential one.
+func concurrentClassification(w *wiring, p *common.Part, label string) {
+	log := w.emittedLog()
+	if len(log) < 2 {
+		return
+	}
+	a := newAdapter(w.kind, w.ids[0])
+	type cls struct {
+		r   uint8
+		bc  bool
+		err bool
+	}
+	seq := make([]cls, len(log))
+	for i, e := range log {
+		r, bc, err := a.ClassifyMsg(e.Data)
+		seq[i] = cls{r, bc, err != nil}
+	}
+	const workers = 6
+	var wg sync.WaitGroup
+	var bad int32
+	var first atomic.Value
+	for g := 0; g < workers; g++ {
+		g := g
+		wg.Add(1)
+		go func() {
+			defer wg.Done()
+			for rep := 0; rep < 300 && atomic.LoadInt32(&bad) == 0; rep++ {
+				for k := range log {
+					i := (k*7 + g*13 + rep) % len(log)
+					r, bc, err := a.ClassifyMsg(log[i].Data)
+					if (cls{r, bc, err != nil}) != seq[i] {
+						if atomic.AddInt32(&bad, 1) == 1 {
+							first.Store(fmt.Sprintf("a %s message classified sequentially as round %d broadcast=%v was classified as round %d broadcast=%v while %d goroutines classified on the same instance", log[i].Phase, seq[i].r, seq[i].bc, r, bc, workers))
+						}
+						return
+					}
+				}
+			}
+		}()
+	}
+	wg.Wait()
+	p.Count("concurrent_classifications", int64(workers*300*len(log)))
+	if atomic.LoadInt32(&bad) > 0 {
+		p.Violate("classification-depends-on-concurrency/"+w.kind, label+": "+first.Load().(string), nil)
 	}
 }
 
@@ -240,6 +290,7 @@ func c19unit(e common.Env, p *common.Part, kind string, nts []nt, reps int) {
 			}
 			classificationOracle(w, p, label)
 			disguisedEnvelopeOracle(w, p, label)
+			concurrentClassification(w, p, label)
 			// (b) digests
 			digs := c19digests(rng)
 			if kind == "ecdsa" {
